@@ -49,13 +49,15 @@ pub struct Mix {
     pub fin_objs: u32,
     pub hide: u32,
     pub dense: u32,
+    pub marking_window: u32,
+    pub gc_loop: u32,
     pub alloc_opts: u32,
     pub nursery_gc: bool,
     pub old_young: u32,
 }
 
 impl Mix {
-    pub const BASIC: Mix = Mix { big: true, sems: true, weak: false, finalizers: false, ephemerons: false, pins: false, region_copy: true, gc_weight: 6, churn_weight: 3, probes: 0, mutator_ops: true, fork: 0, weak_pairs: 0, fin_objs: 0, hide: 0, dense: 1, alloc_opts: 0, nursery_gc: true, old_young: 2 };
+    pub const BASIC: Mix = Mix { big: true, sems: true, weak: false, finalizers: false, ephemerons: false, pins: false, region_copy: true, gc_weight: 6, churn_weight: 3, probes: 0, mutator_ops: true, fork: 0, weak_pairs: 0, fin_objs: 0, hide: 0, dense: 1, marking_window: 0, gc_loop: 0, alloc_opts: 0, nursery_gc: true, old_young: 2 };
 }
 
 pub fn op(mix: Mix) -> BoxedStrategy<Op> {
@@ -114,6 +116,12 @@ pub fn op(mix: Mix) -> BoxedStrategy<Op> {
     if mix.dense > 0 {
         v.push((mix.dense, (any::<u8>(), any::<u8>(), 0u8..32, prop_oneof![3 => Just(0u8), 1 => Just(8u8), 1 => Just(32u8), 1 => 0u8..100], 0u8..4).prop_map(|(m, root, n, extra, keep)| Op::DenseFill { m, root, n, extra, keep }).boxed()));
     }
+    if mix.marking_window > 0 {
+        v.push((mix.marking_window, (any::<u8>(), any::<u32>(), 1u8..12).prop_map(|(m, seed, n)| Op::MarkingWindow { m, seed, n }).boxed()));
+    }
+    if mix.gc_loop > 0 {
+        v.push((mix.gc_loop, (any::<u8>(), prop_oneof![3 => 2u8..20, 1 => 120u8..160], any::<u32>()).prop_map(|(m, n, seed)| Op::GcLoop { m, n, seed }).boxed()));
+    }
     if mix.hide > 0 {
         v.push((mix.hide, (any::<u8>(), any::<u8>(), any::<u8>()).prop_map(|(m, src, dst)| Op::Hide { m, src, dst }).boxed()));
     }
@@ -133,6 +141,9 @@ pub fn variant_for(plan: &str, v: u8) -> u8 {
     let v = v % 4;
     if plan == "Compressor" && (v == 2 || v == 3) {
         v - 2
+    } else if plan == "ConcurrentImmix" && v == 2 {
+        // known finding C12 concurrent-immix-header-log-bit-no-satb: variant 2 keeps the log bit in the header
+        0
     } else {
         v
     }
@@ -257,7 +268,7 @@ pub fn c10_case() -> BoxedStrategy<Case> {
 
 /// C12: ConcurrentImmix with the heap sized so that allocation crosses the concurrent trigger.
 pub fn c12_case() -> BoxedStrategy<Case> {
-    let mix = Mix { churn_weight: 8, gc_weight: 1, old_young: 6, big: false, weak: true, hide: 14, weak_pairs: 2, ..Mix::BASIC };
+    let mix = Mix { churn_weight: 3, gc_weight: 1, old_young: 6, big: false, weak: true, hide: 6, weak_pairs: 2, marking_window: 10, ..Mix::BASIC };
     (any::<u8>(), 1u8..5, 1u8..3, 3000u32..12000, plan_opts("ConcurrentImmix"), prop_oneof![1 => Just(0u32), 2 => 20u32..200, 2 => 200u32..2000], prop::collection::vec(op(mix), 30..160))
         .prop_map(|(v, workers, mutators, heap_kb, mut opts, scan_delay, ops)| {
             if scan_delay > 0 {
@@ -272,7 +283,7 @@ pub fn c12_case() -> BoxedStrategy<Case> {
 /// C34: Immix family with many GCs and objects straddling lines.
 pub fn c34_case() -> BoxedStrategy<Case> {
     const P: [&str; 4] = ["Immix", "GenImmix", "StickyImmix", "ConcurrentImmix"];
-    let mix = Mix { gc_weight: 22, churn_weight: 3, big: true, sems: true, ..Mix::BASIC };
+    let mix = Mix { gc_weight: 22, churn_weight: 3, big: true, sems: true, gc_loop: 3, dense: 3, ..Mix::BASIC };
     (0..P.len())
         .prop_flat_map(move |pi| {
             let plan = P[pi];
